@@ -692,6 +692,7 @@ class AReport:
                 pts.append(pt)
         for _ in range(tries):
             pts.append(sample_point(names, box, self.rng, self.consts))
+        found = []
         for pt in pts:
             pt = dict(pt)
             for k, v in self.consts.items():
@@ -706,5 +707,12 @@ class AReport:
                 continue
             sc = scale_fn(pt) if scale_fn else 1.0
             if abs(v) > tol * sc:
-                return pt, v
+                found.append((abs(v) / sc, pt, v))
+                if len(found) >= 5:
+                    break
+        if found:
+            # the point where the symbolic residual is largest: solver models are often degenerate
+            # (zeros) and make a real defect numerically invisible to the replay oracle
+            _a, pt, v = max(found, key=lambda t: t[0])
+            return pt, v
         return None
